@@ -7,7 +7,7 @@
   rejects (rather than answers) a conditioning event that is itself impossible.
 
   Everything below is about the executable model `Y0.Cf.idcStar` (Y0/Model/IdcStar.lean: the code after the three
-  `fix:` commits to idc_star.py and the `fix:` f502ca2 to `Expression.conditional` listed in known_findings.jsonl), which the correspondence check (harness/props/c08.py) compares with
+  `fix:` commits to idc_star.py and the `fix:` a54a0f5 to `Expression.conditional` listed in known_findings.jsonl), which the correspondence check (harness/props/c08.py) compares with
   the real `idc_star` on every run under every iteration order of the sets the Python iterates over.
 
   PROVED (all graphs, events, fuels, iteration orders):
